@@ -34,7 +34,7 @@ def conversions(u):
     """TryFrom<Token> impl bodies of a unit: list of (self type string, body)"""
     out = []
     for b in u.bodies:
-        if b.kind == "AssocFn" and b.name == "try_from" and b.impl_trait and (TOKTRAIT in b.impl_trait or TOKTRAIT_X in b.impl_trait):
+        if b.kind == "AssocFn" and b.name == "try_from" and b.impl_trait and "convert::TryFrom<" in b.impl_trait and "tokenizer::" in b.impl_trait and "Token<" in b.impl_trait.split("TryFrom<")[1]:
             out.append((b.impl_self, b))
     return out
 
